@@ -502,7 +502,7 @@ func runC14(w *mon.W) {
 
 	// (a) + (b)
 	mutAlpha := []string{".", "[", "]", `"`, "?", ":", "a", "1", "-", `\`, " ", `["`, `"]`, "..", "[]"}
-	total := w.Share(w.Pick(4000, 120000))
+	total := w.Share(w.Pick(12000, 120000))
 	for it := 0; it < total; it++ {
 		n := 1 + r.IntN(5)
 		var s ref.Sel
@@ -546,7 +546,7 @@ func runC14(w *mon.W) {
 	}
 
 	// policies
-	ptotal := w.Share(w.Pick(5000, 200000))
+	ptotal := w.Share(w.Pick(15000, 200000))
 	dataCorpus := newCorpus(r, 10)
 	for it := 0; it < ptotal; it++ {
 		var p ref.Policy
